@@ -236,7 +236,7 @@ func checkC19(p *Prog, r *Report) {
 		ver := int64(-1)
 		if cv != nil {
 			for _, ret := range returnsOf(cv) {
-				if c, ok := ret.Results[0].(*ssa.Const); ok {
+				if c, ok := asConst(ret.Results[0]); ok {
 					ver = c.Int64()
 				}
 			}
